@@ -8,6 +8,9 @@ import CnlModel.ScaledReps
     C01w oebin add|sub|mul <tag> <DL> <NL> <eL> <DR> <NR> <eR> <l> <r>   => sc(ov(el(D,N),tag),e,2)/<storage>:<v>
     C01w oeneg <tag> <DL> <NL> <eL> <l>                                  => the same
     C01w ebi r|l add|sub|mul <DL> <NL> <eL> <B> <l> <b>                  => sc(el(D,N),e,2)/<storage>:<v>
+    C01w wbin add|sub|mul <radix> <DL> <NL> <eL> <DR> <NR> <eR> <l> <r>  => sc(wd(D,N),e,radix):<hex>   (multi-word storage, hex values)
+    C01w cbin r|l add|sub|mul <L> <eL> <V> <l>                           => sc(T,e,2):<v>               (constant<V> operand)
+    C01w cebin r|l add|sub|mul <DL> <NL> <eL> <V> <l>                    => sc(el(D,N),e,2)/<storage>:<v>
 
 Oracle = the property's exact real arithmetic, independent of the model: whenever the exponent-aligned operands
 and the exact result fit the (promoted) representation — for elastic representations: whenever the operands lie
@@ -62,6 +65,43 @@ def c01wParseES (res : String) : Option (Nat × Bool × Option OvTag × Int × I
   | _ => none
 
 def c01wSign (t : IntTy) : String := if t.signed then "s" else "u"
+
+def c01wHexDigit (c : Char) : Option Nat :=
+  if '0' ≤ c && c ≤ '9' then some (c.toNat - '0'.toNat)
+  else if 'a' ≤ c && c ≤ 'f' then some (c.toNat - 'a'.toNat + 10)
+  else none
+
+/-- `0x1f`, `-0x1f` -/
+def c01wParseX (s : String) : Option Int :=
+  let (isNeg, cs) := match s.toList with
+    | '-' :: r => (true, r)
+    | r => (false, r)
+  match cs with
+  | '0' :: 'x' :: ds =>
+    if ds.isEmpty then none else
+    (ds.foldlM (fun (acc : Nat) c => (c01wHexDigit c).map (fun d => acc * 16 + d)) 0).map
+      (fun (n : Nat) => if isNeg then -(n : Int) else (n : Int))
+  | _ => none
+
+def c01wShowX (v : Int) : String :=
+  (if v < 0 then "-0x" else "0x") ++ String.ofList (Nat.toDigits 16 v.natAbs)
+
+def c01wShowW (radix : Nat) (x : ScaledReps.WNum) : String :=
+  s!"sc(wd({x.digits},{x.narrowest.toString}),{x.exp},{radix}):{c01wShowX x.value}"
+
+/-- parse `sc(wd(D,N),e,radix):hex` -/
+def c01wParseW (res : String) : Option (Nat × IntTy × Int × Nat × Int) :=
+  match res.splitOn ":" with
+  | [ty, v] =>
+    match parseTy ty, c01wParseX v with
+    | some (.sc (.wd d (.int n)) e x), some v => some (d, n, e, x, v)
+    | _, _ => none
+  | _ => none
+
+/-- exact comparison of `a·2^ea` with `b·2^eb` -/
+def c01wSameReal (a ea b eb : Int) : Bool :=
+  let m := min ea eb
+  a * (2 : Int)^(ea - m).toNat == b * (2 : Int)^(eb - m).toNat
 
 def checkC01w (toks : List String) (res : String) : Option Verdict :=
   match toks with
@@ -150,6 +190,85 @@ def checkC01w (toks : List String) (res : String) : Option Verdict :=
     some { model := c01wShowRes c01wShowES m, spec := spec,
            branch := "ebi/" ++ side ++ "/" ++ ops ++ "/" ++ c01wSign nl ++ c01wSign B ++ (if b < 0 then "/negative-builtin" else "")
                      ++ (if wider then "/elastic-wider" else ""),
+           nontrivial := guard }
+  | ["wbin", ops, rx, dl, nl, el, dr, nr, er, l, r] => do
+    let op ← parseBinOp ops; let rx ← rx.toNat?; let dl ← dl.toNat?; let nl ← parseIntTy nl; let eL ← el.toInt?
+    let dr ← dr.toNat?; let nr ← parseIntTy nr; let eR ← er.toInt?; let l ← c01wParseX l; let r ← c01wParseX r
+    if op != .add && op != .sub && op != .mul then none
+    let m := ScaledReps.wwBin rx op ⟨dl, nl, eL, l⟩ ⟨dr, nr, eR, r⟩
+    let sg := nl.signed || nr.signed
+    let c := min eL eR
+    let al := c01wScalePow rx (eL - c) l
+    let ar := c01wScalePow rx (eR - c) r
+    let (wantE, wantV) : Int × Int := match op with
+      | .mul => (eL + eR, l * r)
+      | .add => (c, al + ar)
+      | _ => (c, al - ar)
+    -- the aligned operands fit the digits of their own type, the exact result the digits of the result type
+    let fits := c01wWithin dl nl.signed l && c01wWithin dr nr.signed r
+                && (op == .mul || (c01wWithin dl nl.signed al && c01wWithin dr nr.signed ar))
+                && c01wWithin (max dl dr) sg wantV
+    let spec : Option Bool := if !fits then none else
+      match c01wParseW res with
+      | some (d, n, e, x, v) => some (e == wantE && v == wantV && x == rx && d == max dl dr && n.signed == sg)
+      | none => some false
+    some { model := c01wShowRes (c01wShowW rx) m, spec := spec,
+           branch := "wbin/" ++ ops ++ "/radix" ++ toString rx ++ "/" ++ c01wSign nl ++ c01wSign nr ++ (if eL == eR then "" else "/aligned") ++ (if fits then "" else "/nofit"),
+           nontrivial := fits }
+  | ["cbin", side, ops, lt, el, v, l] => do
+    let op ← parseBinOp ops; let L ← parseIntTy lt; let eL ← el.toInt?; let v ← v.toInt?; let l ← l.toInt?
+    if op != .add && op != .sub && op != .mul then none
+    let left := side == "l"
+    let m := ScaledReps.binC op left (.sc (.int L) eL 2, l) v
+    -- the constant is `cv · 2^tz` held in a signed built-in of max(31, used digits - tz) digits
+    let tz : Nat := Parse.trailingBits v
+    let cv := v / (2 : Int)^tz
+    let C : IntTy := if Parse.usedDigits v - tz ≤ 31 then i32 else i64
+    let T := usualArith L C
+    let c := min eL (tz : Int)
+    let al := c01wScalePow 2 (eL - c) l
+    let ac := c01wScalePow 2 ((tz : Int) - c) cv
+    let (wantE, wantV, fits) : Int × Int × Bool := match op with
+      | .mul => (eL + tz, l * cv, T.inRange (l * cv) && T.inRange l && T.inRange cv)
+      | _ =>
+        let e := if op == .add then al + ac else if left then ac - al else al - ac
+        (c, e, (promote L).inRange al && C.inRange ac && T.inRange al && T.inRange ac && T.inRange e)
+    -- exact real arithmetic: result · 2^e = l · 2^eL op V, at the exponent the operator rule fixes
+    let spec : Option Bool := if !fits then none else
+      match res.splitOn ":" with
+      | [ty, rv] =>
+        match parseTy ty, rv.toInt? with
+        | some (.sc (.int t) e 2), some rv => some (e == wantE && rv == wantV && t.inRange rv && c01wSameReal rv e wantV wantE)
+        | _, _ => some false
+      | _ => some false
+    some { model := c01wShowRes showNum m, spec := spec,
+           branch := "cbin/" ++ side ++ "/" ++ ops ++ "/" ++ c01wSign L ++ (if v < 0 then "/negative-constant" else "") ++ (if wantV < 0 then "/negative-result" else "")
+                     ++ (if fits then "" else "/nofit"),
+           nontrivial := fits }
+  | ["cebin", side, ops, dl, nl, el, v, l] => do
+    let op ← parseBinOp ops; let dl ← dl.toNat?; let nl ← parseIntTy nl; let eL ← el.toInt?; let v ← v.toInt?; let l ← l.toInt?
+    if op != .add && op != .sub && op != .mul then none
+    let left := side == "l"
+    let x : ESNum := ⟨dl, nl, eL, l⟩
+    let m := ScaledReps.binCE op left x v
+    let tz : Nat := Parse.trailingBits v
+    let cv := v / (2 : Int)^tz
+    let C : IntTy := if Parse.usedDigits v - tz ≤ 31 then i32 else i64
+    let c := min eL (tz : Int)
+    let al := c01wScalePow 2 (eL - c) l
+    let ac := c01wScalePow 2 ((tz : Int) - c) cv
+    -- the constant's representation is scaled in its own type (only when the exponents differ, and not for `*`)
+    let guard := decide x.InRange && (op == .mul || eL == tz || C.inRange ac)
+    let (wantE, wantV) : Int × Int := match op with
+      | .mul => (eL + tz, l * cv)
+      | .add => (c, al + ac)
+      | _ => (c, if left then ac - al else al - ac)
+    let spec : Option Bool := if !guard then none else
+      match c01wParseES res with
+      | some (d, sg, none, e, rv) => some (e == wantE && rv == wantV && c01wWithin d sg rv)
+      | _ => some false
+    some { model := c01wShowRes c01wShowES m, spec := spec,
+           branch := "cebin/" ++ side ++ "/" ++ ops ++ "/" ++ c01wSign nl ++ (if v < 0 then "/negative-constant" else "") ++ (if wantV < 0 then "/negative-result" else ""),
            nontrivial := guard }
   | _ => none
 
